@@ -523,6 +523,18 @@ class Kernel(object):
                 if isinstance(pth, str) and pth.startswith(f['dir'] + '/'):
                     return E.EACCES
             return None
+        if what == 'dir_not_readable':     # D has w and x but no r bit (a drop box, mode 0300 / 1733): listing it fails, lookups and changes work
+            if name not in ('listdir', 'scandir', 'open'):
+                return None
+            pth = ev[3]
+            if isinstance(pth, str) and pth.startswith('/'):
+                try:
+                    res = self.v(self._orig_realpath(self.root + pth))
+                except Exception:
+                    return None
+                if res == f['dir']:
+                    return E.EACCES
+            return None
         if what == 'op_errno':      # every op named N on a path under D fails
             if name != f['op']:
                 return None
